@@ -156,6 +156,8 @@ func (tg *TCPGroup) worker() {
 			tg.acceptCh <- c
 		})
 		if err != nil {
+			// the last member listener has gone: nobody will ever serve this connection
+			c.Close()
 			return
 		}
 	}
